@@ -53,7 +53,7 @@ let handle_q (f : string array) (o : string array) =
   if tpp <> o.(9) && o.(9) <> "SKIPPED" then record_mismatch "ToParameterizedPostgres" (input @ [("go", o.(9)); ("model", tpp)])
   end;
   (* --- property checks on the implementation's observation --- *)
-  check_q { q; df; tag; o; line = !current_case } input
+  check_q { q; df; tag; o; line = !current_case; mtree = (match pr_ with PTree e -> Some e | _ -> None) } input
 
 (* ---------- L lines ---------- *)
 let handle_l (f : string array) (o : string array) =
